@@ -62,19 +62,88 @@ def analyse(facts_path, only_prop=None):
     return out
 
 
-def run_variant(v, repo, extract, only_prop=None):
-    """returns dict(status=ok|inapplicable|does-not-compile|missed|false-alarm, detail, reported)"""
+def _digest_tree(paths):
+    import hashlib
+    h = hashlib.sha256()
+    for p in sorted(paths):
+        h.update(p.encode())
+        try:
+            h.update(open(p, "rb").read())
+        except OSError:
+            pass
+    return h.hexdigest()
+
+
+def context_digest(repo):
+    """digest of everything a variant's report depends on besides the variant itself: /repo's sources, the rules and the extractor"""
+    src = [os.path.join(r, f) for r, _, fs in os.walk(os.path.join(repo, "src")) for f in fs] + [os.path.join(repo, "Cargo.toml"), os.path.join(repo, "Cargo.lock")]
+    rules = glob.glob(os.path.join(VERIF, "rules", "*.py")) + [os.path.join(VERIF, "extractor", "src", "main.rs"), os.path.join(VERIF, "tools", "extract.sh")]
+    return _digest_tree(src)[:20] + _digest_tree(rules)[:20]
+
+
+def cached_report(kind, name, content, repo, extract, apply):
+    """full report {status, reported:{prop:{key:found}}} of analysing a scratch copy of `repo` modified by `apply(dst) -> error or None` with *every* rule.
+    Cached under .cache/selfval keyed by (sources of repo, rules, extractor, the modification): the 20 per-property checks share one analysis per variant."""
+    import hashlib
+    key = hashlib.sha256((context_digest(repo) + kind + name).encode() + content).hexdigest()[:32]
+    cdir = os.path.join(VERIF, ".cache", "selfval")
+    cp = os.path.join(cdir, key + ".json")
+    if os.environ.get("VERIF_NO_CACHE") != "1" and os.path.exists(cp):
+        try:
+            return json.load(open(cp))
+        except Exception:
+            pass
     d, dst = scratch_copy(repo)
     try:
-        err = apply_edits(dst, v["edits"])
+        err = apply(dst)
         if err:
-            return {"status": "inapplicable", "detail": err}
-        fp = os.path.join(d, "facts.json")
-        if not extract(dst, fp):
-            return {"status": "does-not-compile", "detail": "the edited copy does not compile"}
-        rep = analyse(fp, only_prop)
+            res = {"status": "inapplicable", "detail": err, "reported": {}}
+        else:
+            fp = os.path.join(d, "facts.json")
+            if not extract(dst, fp):
+                res = {"status": "does-not-compile", "detail": "the edited copy does not compile", "reported": {}}
+            else:
+                res = {"status": "analysed", "detail": "", "reported": analyse(fp)}
     finally:
         shutil.rmtree(d, ignore_errors=True)
+    try:
+        os.makedirs(cdir, exist_ok=True)
+        tmp = cp + f".{os.getpid()}.tmp"
+        json.dump(res, open(tmp, "w"))
+        os.replace(tmp, cp)
+    except OSError:
+        pass
+    return res
+
+
+def apply_patch(diff):
+    def go(dst):
+        p = subprocess.run(["patch", "-p1", "-s", "-d", dst, "-i", diff], stdout=subprocess.PIPE, stderr=subprocess.STDOUT, text=True)
+        return None if p.returncode == 0 else "the diff does not apply to the current tree: " + p.stdout[-200:]
+    return go
+
+
+def load_seeded():
+    out = []
+    for d in sorted(glob.glob(os.path.join(VERIF, "seeded", "*"))):
+        mp, pp = os.path.join(d, "meta.json"), os.path.join(d, "patch.diff")
+        if os.path.exists(mp) and os.path.exists(pp):
+            out.append((os.path.basename(d), json.load(open(mp)).get("breaks_property"), pp))
+    return out
+
+
+def load_benign():
+    return [(os.path.basename(p)[:-5], p) for p in sorted(glob.glob(os.path.join(VERIF, "benign", "*.diff")))]
+
+
+def run_variant(v, repo, extract, only_prop=None):
+    """returns dict(status=ok|inapplicable|does-not-compile|missed|false-alarm, detail, reported)"""
+    res = cached_report("variant", v["name"], json.dumps(v["edits"], sort_keys=True).encode(), repo, extract, lambda dst: apply_edits(dst, v["edits"]))
+    if res["status"] != "analysed":
+        return {"status": res["status"], "detail": res["detail"]}
+    rep = res["reported"]
+    if only_prop is not None:
+        rep = {p: k for p, k in rep.items() if p == only_prop}
     expect = v.get("expect", {})
     also = set(v.get("also_ok", []))
     problems = []
@@ -131,6 +200,32 @@ def run(prop, repo, extract, verbose=False, controls_only=False):
                 res["failures"].append((f"FALSE-ALARM-{v['name']}", f"behaviour-preserving variant {v['name']} made {prop} fire: {keys}"))
         if verbose:
             print(v["name"], r["status"], r.get("detail", ""))
+    if not controls_only:
+        # independent mutants (sub-agents) aimed at this property must be reported by it; independent behaviour-preserving refactorings must not be
+        for (nm, target, pp) in load_seeded():
+            if target != prop:
+                continue
+            try:
+                r = cached_report("seeded", nm, open(pp, "rb").read(), repo, extract, apply_patch(pp))
+            except Exception as e:
+                res["variants"].append({"variant": "seeded/" + nm, "status": "error", "detail": f"{type(e).__name__}: {e}"})
+                continue
+            keys = sorted(r["reported"].get(prop, {}))
+            st = r["status"] if r["status"] != "analysed" else ("ok" if keys else "missed")
+            res["variants"].append({"variant": "seeded/" + nm, "kind": "independent-mutant", "status": st, "detail": r.get("detail", ""), "reported": {prop: keys[:8]}})
+            if st == "missed":
+                res["failures"].append((f"MISSED-seeded-{nm}", f"independent mutant seeded/{nm} breaks {prop} (demonstrated by its demo.sh) but no rule serving {prop} reported it"))
+        for (nm, pp) in load_benign():
+            try:
+                r = cached_report("benign", nm, open(pp, "rb").read(), repo, extract, apply_patch(pp))
+            except Exception as e:
+                res["variants"].append({"variant": "benign/" + nm, "status": "error", "detail": f"{type(e).__name__}: {e}"})
+                continue
+            keys = sorted(r["reported"].get(prop, {}))
+            st = r["status"] if r["status"] != "analysed" else ("ok" if not keys else "false-alarm")
+            res["variants"].append({"variant": "benign/" + nm, "kind": "independent-refactoring", "status": st, "detail": r.get("detail", ""), "reported": {prop: keys[:8]}})
+            if st == "false-alarm":
+                res["failures"].append((f"FALSE-ALARM-benign-{nm}", f"behaviour-preserving refactoring benign/{nm} made {prop} fire: {keys[:4]}"))
     return res
 
 
